@@ -510,6 +510,12 @@ func (m *hdMcu) create(ctx context.Context, o *hdMcuObj) (*hdMcuObj, error) {
 	return o, nil
 }
 
+func (m *hdMcu) created() int {
+	m.mu.Lock()
+	defer m.mu.Unlock()
+	return m.tok
+}
+
 // firstPending returns tok if it is pending, or the oldest pending token for tok == 0.
 func (m *hdMcu) firstPending(tok int) int {
 	m.mu.Lock()
@@ -603,6 +609,18 @@ func (c *hdClient) take() ([][]byte, bool) {
 	m := c.msgs
 	c.msgs = nil
 	return m, c.closed
+}
+
+func (c *hdClient) hasId(id string) bool {
+	needle := []byte(`"id":"` + id + `"`)
+	c.mu.Lock()
+	defer c.mu.Unlock()
+	for _, m := range c.msgs {
+		if bytes.Contains(m, needle) {
+			return true
+		}
+	}
+	return false
 }
 
 func (c *hdClient) isClosed() bool {
